@@ -26,7 +26,7 @@ from hsim.stubs import lludp as L
 
 PROPERTY = "C02"
 CHUNK = {"quick": 24, "thorough": 60}
-PROBES = ["inspect_body", "inspect_header_only", "inspect_failed_parse", "noncanonical_zero_coding",
+PROBES = ["zero_expansion_over_codec_limit", "inspect_body", "inspect_header_only", "inspect_failed_parse", "noncanonical_zero_coding",
           "corrupt_forwarded", "corrupt_discarded", "tricky_text", "omitted_trailing_block", "eager_parsing",
           "body_inspected_twice", "logger_inspector", "held_copy_inspected_after_other_traffic", "held_copy_resent"]
 COMPONENTS = dict(c06.COMPONENTS)
@@ -39,7 +39,7 @@ ASSUMPTIONS = c06.ASSUMPTIONS + [
     "bytes it arrived with",
 ]
 
-CORRUPT_KINDS = ["truncate", "extend", "setbyte", "rezero", "rezero_wrap"]
+CORRUPT_KINDS = ["truncate", "extend", "setbyte", "rezero", "rezero_wrap", "zero_bomb"]
 
 
 def gen_plan(rng: random.Random, tier: str) -> dict:
@@ -112,7 +112,9 @@ def gen_plan(rng: random.Random, tier: str) -> dict:
             elif kind == "setbyte":
                 c["frac"] = round(rng.random(), 3)
                 c["v"] = rng.choice([0, 1, 2, 255, rng.randrange(256)])
-            if kind.startswith("rezero"):
+            elif kind == "zero_bomb":
+                c["k"] = rng.choice([3, 40, 47, 48, 49, 50, 51, 64])
+            if kind.startswith("rezero") or kind == "zero_bomb":
                 st["zerocoded"] = True
             st["corrupt"] = c
         elif rng.random() < 0.2:
